@@ -169,16 +169,28 @@ CHECKS["C07"] = dict(
     technique="Coq proof (fold invariants over insertion-ordered dictionaries) + differential correspondence through the real parser")
 
 CHECKS["C08"] = dict(
-    text=("PARTIAL. Proved (pure model of parse()): CopyDecay NEW OLD appends a table for NEW with exactly OLD's lines, leaves every "
-          "other table as it was, and the table list the CDecay pass reads includes the copies (a copy can be a CDecay source). "
-          "The functional model has no object identity, so independence of derived tables and the absence of effects of queries are "
-          "not theorems: they are established by execution on every generated file — separation of the object graph held after "
-          "parse() (no Token/Tree reachable twice), write-through test on copied/conjugated tables, and histories of 1..12 public "
-          "queries with recursive mutation of the returned values compared step by step with a fresh parse and with the model."),
-    design="DESIGN.md §5 C08",
-    technique="Coq proof of the value-level CopyDecay law + executed object-graph separation / query-history comparison (partial)",
-    note=("Trusted/assumed: as the other checks; additionally the sharing-related half of the property rests on the executed checks "
-          "of py/c08.py over generated files, not on a theorem."))
+    text=("Three layers of theorems. (1) Value model of parse() (Dec/Post.v): CopyDecay NEW OLD appends a table for NEW with exactly OLD's "
+          "lines, leaves every other table as it was, and is available as a CDecay source. (2) Identity-carrying model (Dec/Heap.v: Tree / "
+          "Token objects with identities, a mutable token store, the Transformer building new Trees over the same Tokens, copy.deepcopy with "
+          "its memo, both Visitors and the CopyDecay renaming as in-place writes), for EVERY statement list: in the state parse() leaves "
+          "behind no Token and no Tree object occurs twice in the decay tables (within one table or in two), what a table denotes is a "
+          "function of its own tokens only, hence a write to any token of one table (source, copy or conjugate) changes no other table; "
+          "the value visitor meets every token at most once and only tokens still holding strings, so the TypeError of finding F1 "
+          "cannot occur; the CopyDecay pass creates tables denoting the last table named OLD under the name NEW and writes to nothing "
+          "that existed. (3) REFINEMENT: whenever the value model yields tables, the object-level algorithm ends without error in a state "
+          "whose decay trees read back as exactly those tables (so the theorems of C01/C03/C05 about Dec/Post.v hold of what the "
+          "object-level algorithm leaves in the Token objects). Tie of Dec/Heap.v to CPython/Lark: on every generated file the object "
+          "graph the model builds (file tree + tables, identities renumbered by first occurrence) equals the id()-graph of the real "
+          "objects, and its tables equal the value model's and the implementation's. PARTIAL: queries are pure readers in the model, so "
+          "'queries (and in-place modification of their results) never change the parser' is established by execution: histories of "
+          "1..12 public queries with recursive mutation of the returned values, compared step by step with a fresh parse."),
+    design="DESIGN.md §0 (C08 as built), §5 C08",
+    technique=("Coq proof (object-graph semantics with identities: allocation-window invariants for separation, frame lemmas, shape and "
+               "string-valued-token invariants, simulation of the in-place algorithm by pure value trees, naturality of the table "
+               "operations in the line type) + differential correspondence on object identity graphs (CPython id()) and on tables; "
+               "query histories executed"),
+    note=("Trusted/assumed: as the other checks; Dec/Heap.v is hand-written and tied by the id()-graph correspondence; that queries do not "
+          "write to the parser rests on the executed histories of py/c08.py, not on a theorem."))
 
 CHECKS["C17"] = dict(
     text=("Theorems over the model of read_ampgen / expand_lines on the transformed option file: the expansion of a line is exactly "
